@@ -624,9 +624,18 @@ def _sweep(rep, pp):
                 rep.violation("tree: Jacobian equals the true derivative", _sig(desc), inputs={"tree": desc, "point": [p.tolist() for p in pt]},
                               detail=f"max abs diff {np.max(np.abs(J - ej.real)) if J.shape == ej.shape else 'shape'}")
         # l2_norm and row slicing directly
-        for dim in (1, 2, 3):
-            for nc in (1, 2, 3):
+        for dim, nc, zeros in [(d, n, z) for d in (1, 2, 3) for n in (1, 2, 3) for z in (False, True)]:
+            if True:
                 v = np.array([rng.uniform(0.3, 2) * rng.choice([-1, 1]) for _ in range(dim * nc)])
+                if zeros:
+                    if dim == 1:
+                        continue
+                    # non-zero vectors with components that are exactly zero (axis-aligned vectors): the norm is smooth there
+                    for c in range(nc):
+                        keep = rng.randrange(dim)
+                        for d in range(dim):
+                            if d != keep and rng.random() < 0.7:
+                                v[c * dim + d] = 0.0
                 (a,) = pp.ad.initAdArrays([v.copy()])
                 b = a * a + a
                 r = fns.l2_norm(dim, b)
